@@ -4,7 +4,7 @@ From MV Require Import Lib.ListX Kernel.Model.
 Open Scope Z_scope.
 
 Definition dir_eqb (a b : directive) : bool :=
-  match a, b with DRestart, DRestart | DStop, DStop | DResume, DResume | DEscalate, DEscalate => true | _, _ => false end.
+  match a, b with DRestart, DRestart | DStop, DStop | DResume, DResume | DEscalate, DEscalate | DRestartAll, DRestartAll => true | _, _ => false end.
 Definition trig_eqb (a b : trig) : bool :=
   match a, b with
   | TL, TL | TRD, TRD | TRG, TRG | TT, TT | TTS, TTS => true
